@@ -828,6 +828,19 @@ func isMinReductionOverB(v ssa.Value, loc string, seen map[ssa.Value]bool, bind 
 	return false
 }
 
+// nnBind: parameters of the helpers being looked into, bound to the values their callers pass (innermost last).
+var nnBind []map[*ssa.Parameter]ssa.Value
+
+func nnPush(call *ssa.Call, c *ssa.Function) {
+	b := map[*ssa.Parameter]ssa.Value{}
+	for i, p := range c.Params {
+		if i < len(call.Call.Args) {
+			b[p] = call.Call.Args[i]
+		}
+	}
+	nnBind = append(nnBind, b)
+}
+
 // nonNegative: v is provably >= 0 by a shallow structural argument.
 func nonNegative(v ssa.Value, inProgress map[ssa.Value]bool, depth int) bool {
 	if depth > 12 {
@@ -837,6 +850,18 @@ func nonNegative(v ssa.Value, inProgress map[ssa.Value]bool, depth int) bool {
 		return true // coinductive assumption on loop-carried phis
 	}
 	switch x := v.(type) {
+	case *ssa.Parameter:
+		// a parameter of a helper whose result is being judged: as non-negative as what the caller passes
+		for i := len(nnBind) - 1; i >= 0; i-- {
+			if a, ok := nnBind[i][x]; ok {
+				saved := nnBind
+				nnBind = append([]map[*ssa.Parameter]ssa.Value(nil), nnBind[:i]...) // a copy: pushes below must not overwrite the saved frames
+				res := nonNegative(a, inProgress, depth+1)
+				nnBind = saved
+				return res
+			}
+		}
+		return false
 	case *ssa.Const:
 		c, ok := constInt(x)
 		return ok && c >= 0
@@ -860,6 +885,8 @@ func nonNegative(v ssa.Value, inProgress map[ssa.Value]bool, depth int) bool {
 			if c := call.Call.StaticCallee(); c != nil && inModule(c) && len(c.Blocks) > 0 {
 				inProgress[v] = true
 				defer delete(inProgress, v)
+				nnPush(call, c)
+				defer func() { nnBind = nnBind[:len(nnBind)-1] }()
 				n, all := 0, true
 				eachInstr(c, func(in ssa.Instruction) {
 					if ret, ok := in.(*ssa.Return); ok && x.Index < len(ret.Results) {
@@ -876,6 +903,8 @@ func nonNegative(v ssa.Value, inProgress map[ssa.Value]bool, depth int) bool {
 		if c := x.Call.StaticCallee(); c != nil && inModule(c) && len(c.Blocks) > 0 && c.Signature.Results().Len() == 1 {
 			inProgress[v] = true
 			defer delete(inProgress, v)
+			nnPush(x, c)
+			defer func() { nnBind = nnBind[:len(nnBind)-1] }()
 			n, all := 0, true
 			eachInstr(c, func(in ssa.Instruction) {
 				if ret, ok := in.(*ssa.Return); ok && len(ret.Results) == 1 {
@@ -1495,9 +1524,33 @@ func antiparallelWitness(m *Model, f *ssa.Function) (bool, string) {
 		if !ok {
 			return true
 		}
+		// guard form: `if !witness[pair] { continue }` followed, in the same block, by the collection
+		var cond ast.Expr = is.Cond
+		var guarded ast.Node = is.Body
+		if ue, isNot := stripParens(is.Cond).(*ast.UnaryExpr); isNot && ue.Op == token.NOT && is.Else == nil && len(is.Body.List) == 1 {
+			if br, isBr := is.Body.List[0].(*ast.BranchStmt); isBr && br.Tok == token.CONTINUE && br.Label == nil {
+				if _, isIdx := stripParens(ue.X).(*ast.IndexExpr); isIdx {
+					// the statements after the guard in the enclosing block
+					var rest *ast.BlockStmt
+					ast.Inspect(fd.Body, func(n3 ast.Node) bool {
+						if bl, ok := n3.(*ast.BlockStmt); ok {
+							for i, s := range bl.List {
+								if s == ast.Stmt(is) {
+									rest = &ast.BlockStmt{List: bl.List[i+1:]}
+								}
+							}
+						}
+						return true
+					})
+					if rest != nil {
+						cond, guarded = stripParens(ue.X), rest
+					}
+				}
+			}
+		}
 		// does the then-branch collect or reverse?
 		collects := false
-		ast.Inspect(is.Body, func(n2 ast.Node) bool {
+		ast.Inspect(guarded, func(n2 ast.Node) bool {
 			if call, ok := n2.(*ast.CallExpr); ok {
 				name := funcFullName(calleeObj(info, call))
 				if name == "builtin.append" || strings.HasSuffix(name, ".Reverse") {
@@ -1509,7 +1562,7 @@ func antiparallelWitness(m *Model, f *ssa.Function) (bool, string) {
 		if !collects {
 			return true
 		}
-		ix, ok := is.Cond.(*ast.IndexExpr)
+		ix, ok := cond.(*ast.IndexExpr)
 		if !ok {
 			okShape = false
 			why = "reversal candidates are selected by `" + types.ExprString(is.Cond) + "`, not by a single antiparallel lookup"
